@@ -84,12 +84,13 @@ def outcome_class(ev, scen_keys):
 
 
 def run_pipeline(prop, group_scen, tier, seed, res, bins_release=False, trace_spec="Trace",
-                 neg_skip=(), stateful=False, neg_every=97, hang_secs=20, workdir=None):
-    """group_scen: dict bin_name -> list of scenario dicts (all of one property)."""
+                 neg_skip=(), stateful=False, neg_every=97, hang_secs=20, workdir=None, pre_events=None):
+    """group_scen: dict bin_name -> list of scenario dicts (all of one property).
+    pre_events: events observed by other means (compiled probe programs): list of (event, scenario keys)."""
     workdir = workdir or os.path.join(vlib.OUT, prop)
     os.makedirs(workdir, exist_ok=True)
     known = load_known(prop)
-    all_events = []      # (event dict, scen_keys)
+    all_events = list(pre_events or [])      # (event dict, scen_keys)
     for binname, scens in group_scen.items():
         if not scens:
             continue
